@@ -191,10 +191,27 @@ def drive_idft_overlay(rec, cases, ns):
     rec.data["ok"] = ok
 
 
+def compaction_legal(n, rs, rsl, size, asl):
+    """res == a as base pointer, res limbs at i*rsl, source limbs at j*asl: a limb that is computed from a source limb (i < min) must
+    coincide with its own source or be disjoint from it, and must not touch a source limb that is still to be read (j > i); the limbs that
+    are only zero-filled (i >= size) come last and may land anywhere inside the vector"""
+    def inter(x, y):
+        return x < y + n and y < x + n
+    for i in range(min(rs, size)):
+        r = i * rsl
+        if inter(r, i * asl) and r != i * asl:
+            return False
+        for j in range(i + 1, size):
+            if inter(r, j * asl):
+                return False
+    return True
+
+
 def drive_compaction(rec, quick):
-    """res == a with a_sl >= res_sl + N (a limb vector compacted in place, and the one-limb case with different nominal strides): output limb 0
-    is its own source limb, every other output limb overlaps no source limb that is still to be read and none partly, so the result must
-    equal the out-of-place result"""
+    """res is the same base pointer as one source with another stride (a limb vector compacted, or compacted and cleared, in place; the
+    one-limb case with different nominal strides).  Only shapes where every output limb is its own source limb or overlaps nothing that
+    is still to be read are driven (compaction_legal), so the result must equal the out-of-place result.  Unary operations, and add / sub
+    with the result over their first or their second operand."""
     from lib import Buf, FFT64, NTT120
     rng = random.Random(rec.seed * 13 + 7)
     L = Lib.get()
@@ -203,38 +220,61 @@ def drive_compaction(rec, quick):
         for mk, mt, mask in (("fft64", FFT64, MASK_NONE), ("fft64-generic", FFT64, MASK_GENERIC), ("ntt120", NTT120, MASK_NONE)):
             mod = L.module(n, mt, mask)
             L.set_cpu_mask(MASK_NONE)
-            for op in ("rotate", "automorphism", "copy", "negate"):
-                for size, rs in ((1, 1), (2, 2), (3, 3), (3, 2), (2, 3)):
-                    for rsl, asl in ((n, 2 * n), (n + 1, 2 * n + 2), (n + 2, 2 * n + 2), (n, 3 * n)):      # a_sl >= res_sl + N: limb i of res never overlaps limb i of a partly
-                        words = max((size - 1) * asl, (rs - 1) * rsl) + n
-                        B = Buf(8 * words, fill=0x4D)
-                        src = [vecops.role_data(rec.seed + 9, "a", j, n, 50) for j in range(size)]
-                        for j in range(size):
-                            B.i64[j * asl:j * asl + n] = src[j]
-                        p = rng.choice([1, 3, n + 1, 2 * n - 1, 5, -7])
-                        label = "%s[%s] N=%d a_size=%d res_size=%d res==a res_sl=%d a_sl=%d p=%d" % (op, mk, n, size, rs, rsl, asl, p)
-                        if not rec.progress(label):
-                            continue
+            shapes = [(size, rs, rsl, asl) for (size, rs) in ((1, 1), (2, 2), (3, 3), (3, 2), (2, 3), (2, 4), (2, 5), (3, 5), (3, 7), (4, 8), (1, 3))
+                      for (rsl, asl) in ((n, 2 * n), (n + 1, 2 * n + 2), (n + 2, 2 * n + 2), (n, 3 * n), (n, 2 * n + 1))
+                      if compaction_legal(n, rs, rsl, size, asl)]
+            for op in ("rotate", "automorphism", "copy", "negate", "add:a", "add:b", "sub:a", "sub:b"):
+                for (size, rs, rsl, asl) in shapes:
+                    words = max((size - 1) * asl, (rs - 1) * rsl) + n
+                    B = Buf(8 * words, fill=0x4D)
+                    src = [vecops.role_data(rec.seed + 9, "a", j, n, 50) for j in range(size)]
+                    for j in range(size):
+                        B.i64[j * asl:j * asl + n] = src[j]
+                    p = rng.choice([1, 3, n + 1, 2 * n - 1, 5, -7, 0, 2 * n])
+                    if op == "automorphism":
+                        p |= 1                      # (an even exponent is not an automorphism: outside the domain)
+                    binary = ":" in op
+                    osz = rng.choice([0, 1, size, size + 1, rs]) if binary else 0       # the other operand of add / sub: its own buffer and size
+                    osl = n + rng.choice([0, 3])
+                    O = Buf(8 * ((osz - 1) * osl + n) if osz else 0, fill=0x22)
+                    oth = [vecops.role_data(rec.seed + 11, "b", j, n, 50) for j in range(osz)]
+                    for j in range(osz):
+                        O.i64[j * osl:j * osl + n] = oth[j]
+                    label = "%s[%s] N=%d size=%d res_size=%d res is the %s operand, res_sl=%d its stride as operand=%d%s p=%d" % (
+                        op.split(":")[0], mk, n, size, rs, "second" if op.endswith(":b") else "first", rsl, asl,
+                        (", other operand %d limbs" % osz) if binary else "", p)
+                    if not rec.progress(label):
+                        continue
+                    if not binary:
                         vecops.call_op(L, mod, op, p, B, rs, rsl, B, size, asl, B, 0, n)
-                        rec.case(("compaction", op, mk, size, rs, rsl - n, asl - n))
-                        if not B.canaries_ok():
-                            rec.violation(label + ": write outside the vector", {})
-                            continue
-                        bad = None
-                        for i in range(rs):
-                            if i < size:
-                                e = src[i]
-                                e = vecops.ring_map("rot", n, p, e) if op == "rotate" else vecops.ring_map("aut", n, p | 1, e) if op == "automorphism" \
-                                    else (-e if op == "negate" else e)
-                            else:
-                                e = np.zeros(n, dtype=np.int64)
-                            if not np.array_equal(B.i64[i * rsl:i * rsl + n], e):
-                                bad = i
-                                break
-                        if bad is not None:
-                            rec.violation(label + ": output limb %d is not the operation applied to source limb %d as passed" % (bad, bad), {"limb": bad})
-                        else:
-                            ok += 1
+                    elif op.endswith(":a"):
+                        vecops.call_op(L, mod, op[:3], p, B, rs, rsl, B, size, asl, O, osz, osl)
+                    else:
+                        vecops.call_op(L, mod, op[:3], p, B, rs, rsl, O, osz, osl, B, size, asl)
+                    rec.case(("compaction", op, mk, size, rs, rsl - n, asl - n))
+                    if not (B.canaries_ok() and O.canaries_ok()):
+                        rec.violation(label + ": write outside the vector", {})
+                        continue
+                    bad = None
+                    zero = np.zeros(n, dtype=np.int64)
+                    for i in range(rs):
+                        e = src[i] if i < size else zero
+                        if op == "rotate":
+                            e = vecops.ring_map("rot", n, p, e)
+                        elif op == "automorphism":
+                            e = vecops.ring_map("aut", n, p | 1, e)
+                        elif op == "negate":
+                            e = -e
+                        elif binary:
+                            o = oth[i] if i < osz else zero
+                            e = (e + o) if op.startswith("add") else ((e - o) if op.endswith(":a") else (o - e))
+                        if not np.array_equal(B.i64[i * rsl:i * rsl + n], e):
+                            bad = i
+                            break
+                    if bad is not None:
+                        rec.violation(label + ": output limb %d is not the operation applied to the operand limbs %d as passed" % (bad, bad), {"limb": bad})
+                    else:
+                        ok += 1
             L.delete_module(mod)
     rec.data["ok"] = ok
 
